@@ -58,3 +58,10 @@ package guardiansets
 //@   ensures [set-with-that-index] err == nil ==> s != nil && s.Index == index
 //@   ensures [indexed] indexed(gs)
 //@   modifies GuardianSets.currentGuardianSetIndex, GuardianSets.guardianSetLists, chan:*common.GuardianSet, fresh common.GuardianSet.*
+
+// The store starts from the list the chain returned for indices 0..n-1: list position = index.
+//@ func NewGuardianSets(sets []*common.GuardianSet, ethRpcUrl string, logger *zap.Logger, duration time.Duration, ethGovernanceAddress eth_common.Address, guardianSetC chan<- *common.GuardianSet) (gs *GuardianSets)
+//@   props C19
+//@   requires len(sets) >= 1 && len(sets) <= 4294967296 && consecutive(sets, 0)
+//@   ensures [indexed] indexed(gs) && gs.currentGuardianSetIndex == len(sets) - 1 && gs.guardianSetC == guardianSetC
+//@   modifies *
